@@ -39,6 +39,14 @@ func optStr(o dhcpv6.Option) string {
 	return proj.Opt6(o).String()
 }
 
+// optWire renders an option by what it is on the wire (code and payload), whatever Go type carries it.
+func optWire(o dhcpv6.Option) string {
+	if o == nil {
+		return "<absent>"
+	}
+	return fmt.Sprintf("%d:%x", o.Code(), o.ToBytes())
+}
+
 // inner draws an inner message of any type with a chosen subset of the identity options.
 func inner(r *rand.Rand, g *gen6.G, mt int) (*dhcpv6.Message, string) {
 	m := &dhcpv6.Message{MessageType: dhcpv6.MessageType(mt)}
@@ -113,11 +121,19 @@ func caseRelay(r *mon.Rec, idx int) {
 			}
 			if rng.IntN(2) == 0 {
 				lv.iid = gen4.Bytes(rng, 1+rng.IntN(8))
-				rm.AddOption(dhcpv6.OptInterfaceID(lv.iid))
+				if rng.IntN(4) == 0 { // carried as an untyped option (same code, same bytes on the wire): an option like any other
+					rm.AddOption(&dhcpv6.OptionGeneric{OptionCode: dhcpv6.OptionInterfaceID, OptionData: append([]byte{}, lv.iid...)})
+				} else {
+					rm.AddOption(dhcpv6.OptInterfaceID(lv.iid))
+				}
 			}
 			if rng.IntN(2) == 0 {
 				lv.rid = &dhcpv6.OptRemoteID{EnterpriseNumber: rng.Uint32(), RemoteID: gen4.Bytes(rng, rng.IntN(8))}
-				rm.AddOption(lv.rid)
+				if rng.IntN(4) == 0 {
+					rm.AddOption(&dhcpv6.OptionGeneric{OptionCode: dhcpv6.OptionRemoteID, OptionData: lv.rid.ToBytes()})
+				} else {
+					rm.AddOption(lv.rid)
+				}
 			}
 			if rng.IntN(3) == 0 { // unrelated options must not disturb anything
 				o, _ := g.Option([]int{79, 135, 18, 37}[rng.IntN(2)], 2)
@@ -205,6 +221,7 @@ func caseRelay(r *mon.Rec, idx int) {
 		if !check("wire", wired) {
 			return
 		}
+		wiredTree := proj.M6(wired).String()
 		// relay-reply from relay-forward
 		reply, rdesc := inner(rng, g, 7)
 		replyTree := proj.M6(reply).String()
@@ -234,16 +251,16 @@ func caseRelay(r *mon.Rec, idx int) {
 				}
 				wantI, wantR := "<absent>", "<absent>"
 				if levels[k].iid != nil {
-					wantI = optStr(dhcpv6.OptInterfaceID(levels[k].iid))
+					wantI = optWire(dhcpv6.OptInterfaceID(levels[k].iid))
 				}
 				if levels[k].rid != nil {
-					wantR = optStr(levels[k].rid)
+					wantR = optWire(levels[k].rid)
 				}
-				if gi := optStr(rel.GetOneOption(dhcpv6.OptionInterfaceID)); gi != wantI {
+				if gi := optWire(rel.GetOneOption(dhcpv6.OptionInterfaceID)); gi != wantI {
 					fail("relayrepl-interface-id:"+src.tag, "level %d: interface-id %s, forward level has %s", k, gi, wantI)
 					return
 				}
-				if gr := optStr(rel.GetOneOption(dhcpv6.OptionRemoteID)); gr != wantR {
+				if gr := optWire(rel.GetOneOption(dhcpv6.OptionRemoteID)); gr != wantR {
 					fail("relayrepl-remote-id:"+src.tag, "level %d: remote-id %s, forward level has %s", k, gr, wantR)
 					return
 				}
@@ -264,12 +281,34 @@ func caseRelay(r *mon.Rec, idx int) {
 			}
 		}
 		// building a reply consumes nothing: the forward chains (the built one and the decoded one) are what they were
-		if proj.M6(cur).String() != chainTree || proj.M6(wired).String() != chainTree || proj.M6(reply).String() != replyTree {
+		if proj.M6(cur).String() != chainTree || proj.M6(wired).String() != wiredTree || proj.M6(reply).String() != replyTree {
 			fail("relayrepl-changes-input", "NewRelayReplFromRelayForw changed the relay-forward chain or the reply it was given: forward now %.300s", proj.M6(cur).String())
 			return
 		}
 		if !check("built-after-reply", cur) || !check("wire-after-reply", wired) {
 			return
+		}
+		// the chain is a live value: the innermost relay gets another payload (what a relay agent does when it re-uses a
+		// chain, what a test does when it builds variants); every lookup from the top now finds the new message
+		for _, src := range []struct {
+			tag string
+			top dhcpv6.DHCPv6
+		}{{"built", cur}, {"wire", wired}} {
+			last, err := dhcpv6.DecapsulateRelayIndex(src.top, -1)
+			lr, ok := last.(*dhcpv6.RelayMessage)
+			if err != nil || !ok {
+				fail("index-last:"+src.tag, "DecapsulateRelayIndex(-1): %v", err)
+				return
+			}
+			msg2, _ := inner(rng, g, 1+rng.IntN(11))
+			lr.UpdateOption(dhcpv6.OptRelayMessage(msg2))
+			oldTree, oldMsg := innerTree, msg
+			innerTree, msg = proj.M6(msg2).String(), msg2
+			ok = check(src.tag+"-after-inner-swap", src.top)
+			innerTree, msg = oldTree, oldMsg
+			if !ok {
+				return
+			}
 		}
 		// wrong inputs are errors, not values or panics
 		if _, err := dhcpv6.NewRelayReplFromRelayForw(nil, reply); err == nil {
